@@ -4,6 +4,7 @@
 (* {size, bbox, closed rings, ids} x precision {-1,0,2}, the reference       *)
 (* reader inverts the reference writer and the headers are truthful.         *)
 EXTENDS TWKBFamily
+CONSTANT AllPrefixes
 VARIABLES g, o
 Init == \E i \in 1..Len(FamilySeq) :
           \/ g = FamilySeq[i] /\ o \in Opts(g,2)
@@ -11,4 +12,8 @@ Init == \E i \in 1..Len(FamilySeq) :
 Next == UNCHANGED <<g,o>>
 Spec == Init /\ [][Next]_<<g,o>>
 Inv == CheckRT(g, o)
+\* the reader never leaves its input: on every truncation of an encoding it terminates, and what it accepts ends inside
+\* the input (evaluating Geom on a prefix must not index past the end - TLC would report that as an error)
+Prefixes(b) == IF AllPrefixes THEN 0..(Len(b)-1) ELSE {0, 1, 2, Len(b) \div 2, Len(b)-2, Len(b)-1} \cap 0..(Len(b)-1)
+NoOverrun == LET b == W(g, o, TRUE) IN \A k \in Prefixes(b) : LET r == Geom(SubSeq(b,1,k), 1) IN ~r.ok \/ r.pos <= k + 1
 =============================================================================
